@@ -6,20 +6,48 @@ from vlib import *
 
 RULE = ('T in 1..Tmax; holding/fixed/purchase costs as scalar, length-T or length-(T+1) lists with values k/4; integer demands, '
         'first-period demand > 0, later demands zero with prob. 0.25; plus a malformed stream (wrong lengths, negative entries). '
+        'Regimes (independent flags): "integer" = all data integer-valued (prob. 0.4); "expensive" = a purchase cost B or B + k/4 with '
+        'B = m*10^e, e in 3..10, the same (up to k/4) in every period, so that plans differ by a tiny FRACTION of the total cost (prob. 0.2); '
+        '"bulk" = demands multiplied by 100 or 500 (prob. 0.25). Every argument is passed in one of the accepted number forms: python '
+        'float(s), python int(s) (integer-valued data only), or for lists a numpy array of dtype float64/float32/int8/uint8/int16/uint16/'
+        'int32/int64 (only dtypes that hold every entry exactly). All magnitudes stay below 2^53/16 so that the implementation computes exactly. '
         'non-trivial = the optimal plan places more than one and fewer than T orders; distinct = distinct (T, normalised parameter lists).')
+
+INT_DTYPES = {'i8': (-2**7, 2**7 - 1), 'u8': (0, 2**8 - 1), 'i16': (-2**15, 2**15 - 1), 'u16': (0, 2**16 - 1),
+              'i32': (-2**31, 2**31 - 1), 'i64': (-2**63, 2**63 - 1)}
+NP_DTYPE = {'i8': np.int8, 'u8': np.uint8, 'i16': np.int16, 'u16': np.uint16, 'i32': np.int32, 'i64': np.int64, 'f32': np.float32, 'f64': np.float64}
+
+
+def allowed_forms(a):
+    """number forms in which the argument can be passed without changing any value: (float-like forms, int-like forms)"""
+    vals = [a[1]] if a[0] == 'scalar' else list(a[1])
+    fl = ['float']; it = []
+    if a[0] == 'list':
+        fl.append('f64')
+        if all(F(float(np.float32(float(v)))) == v for v in vals): fl.append('f32')
+    if all(v.denominator == 1 for v in vals):
+        it.append('int')
+        if a[0] == 'list':
+            it += [k for k, (lo, hi) in INT_DTYPES.items() if all(lo <= v <= hi for v in vals)]
+    return fl, it
 
 
 def gen_case(rng, tmax):
     T = rng.randint(1, tmax)
     fractional = rng.random() < 0.4
+    integer = rng.random() < 0.4          # all data integer-valued: python ints and integer numpy dtypes become possible forms
+    expensive = rng.random() < 0.2        # an expensive item: every plan's cost is dominated by the same purchase amount
+    bulk = rng.choice([100, 500]) if rng.random() < 0.25 else 1
+    if integer: fractional = False
     def arg(kind, lo, hi, first_pos=False):
         shape = rng.choice(['scalar', 'T', 'T1'])
         def val(i):
             if kind == 'd':
-                if i == 0 and first_pos: return rng.randint(1, hi)
+                if i == 0 and first_pos: return bulk * rng.randint(1, hi)
                 if rng.random() < 0.25: return 0
                 # fractional demands (multiples of 1/4, exact in binary64) exercise the order-quantity reconstruction
-                return Fraction(rng.randint(1, 4 * hi), 4) if fractional else rng.randint(lo, hi)
+                return bulk * (Fraction(rng.randint(1, 4 * hi), 4) if fractional else rng.randint(lo, hi))
+            if integer: return Fraction(rng.randint(lo, (hi + 3) // 4))
             return Fraction(rng.randint(lo, hi), 4)
         if shape == 'scalar' and not (kind == 'd'):
             return ['scalar', val(0)]
@@ -29,6 +57,14 @@ def gen_case(rng, tmax):
         return ['list', vals]
     c = dict(T=T, h=arg('h', 0, 12), K=arg('K', 0, 2000 if rng.random() < 0.8 else 8), d=arg('d', 0, 60, True),
              c=(['scalar', Fraction(0)] if rng.random() < 0.4 else arg('c', 0, 20)), malformed=None)
+    if expensive:
+        # total cost ~ B * total demand, differences between plans ~ K, h*d: relative gaps down to ~1e-12, all still exact
+        # (B * sum(d) * 16 < 2^53: sum(d) <= 12*60*bulk)
+        B = rng.randint(1, 9) * 10 ** rng.randint(3, 10 if bulk == 1 else 7)
+        wobble = (lambda: Fraction(0)) if rng.random() < 0.5 else (lambda: Fraction(rng.randint(0, 8), 1 if integer else 4))
+        shape = rng.choice(['scalar', 'T', 'T1'])
+        if shape == 'scalar': c['c'] = ['scalar', Fraction(B)]
+        else: c['c'] = ['list', ([Fraction(rng.randint(0, 9))] if shape == 'T1' else []) + [B + wobble() for _ in range(T)]]
     if rng.random() < 0.12:
         which = rng.choice(['h', 'K', 'd', 'c'])
         if rng.random() < 0.5:
@@ -39,34 +75,81 @@ def gen_case(rng, tmax):
             if a[0] == 'scalar': c[which] = ['scalar', Fraction(-1, 4)]
             else: a[1][-1] = Fraction(-3)
             c['malformed'] = 'negative'
+    # the form in which each argument is handed over (values unchanged)
+    c['form'] = {}
+    for k in 'hKdc':
+        fl, it = allowed_forms(c[k])
+        if it and rng.random() < 0.75: c['form'][k] = rng.choice(it)
+        elif rng.random() < 0.5: c['form'][k] = 'float'
+        else: c['form'][k] = rng.choice(fl)
+    c['regime'] = dict(integer=integer, expensive=expensive, bulk=bulk)
     return c
 
 
-def py_arg(a):
-    return float(a[1]) if a[0] == 'scalar' else [float(x) for x in a[1]]
+def py_arg(a, form='float'):
+    if form == 'float':
+        return float(a[1]) if a[0] == 'scalar' else [float(x) for x in a[1]]
+    if form == 'int':
+        return int(a[1]) if a[0] == 'scalar' else [int(x) for x in a[1]]
+    if form in ('f32', 'f64'):
+        return np.array([float(x) for x in a[1]], dtype=NP_DTYPE[form])
+    return np.array([int(x) for x in a[1]], dtype=NP_DTYPE[form])
+
+
+def py_args(c, canonical=False):
+    if canonical:
+        return [[0.0] + [float(x) for x in norm(c[k], c['T'])[1:]] for k in 'hKdc']
+    form = c.get('form') or {}
+    return [py_arg(c[k], form.get(k, 'float')) for k in 'hKdc']
+
+
+def same_args(a, b):
+    for x, y in zip(a, b):
+        if isinstance(x, np.ndarray) or isinstance(y, np.ndarray):
+            if not (isinstance(x, np.ndarray) and isinstance(y, np.ndarray) and x.dtype == y.dtype and x.shape == y.shape and np.array_equal(x, y)): return False
+        elif type(x) is not type(y) or x != y or (isinstance(x, list) and [type(v) for v in x] != [type(v) for v in y]):
+            return False
+    return True
 
 
 def coq_arg(a):
     return '(TPScalar %s)' % cq(a[1]) if a[0] == 'scalar' else '(TPList %s)' % cqlist(a[1])
 
 
-def run_impl(c):
+def call_impl(T, args):
     from stockpyl.wagner_whitin import wagner_whitin
+    oq, cost, theta, nxt = wagner_whitin(T, *args)
+    return ('ok', [F(x) for x in oq], F(cost), [F(x) for x in theta], [int(x) for x in nxt])
+
+
+def run_impl(c):
     try:
-        args = [py_arg(c['h']), py_arg(c['K']), py_arg(c['d']), py_arg(c['c'])]
+        args = py_args(c)
         before = copy.deepcopy(args)
-        oq, cost, theta, nxt = wagner_whitin(c['T'], *args)
-        r = ('ok', [F(x) for x in oq], F(cost), [F(x) for x in theta], [int(x) for x in nxt])
+        r = call_impl(c['T'], args)
         # the caller's arguments are inputs, not scratch space: unchanged after the call, and a second call with the SAME objects gives the same answer
-        if args != before:
+        if not same_args(args, before):
             return ('mutated', 'arguments (h, K, d, c) before the call %r, after the call %r' % (before, args))
-        oq2, cost2, theta2, nxt2 = wagner_whitin(c['T'], *args)
-        r2 = ('ok', [F(x) for x in oq2], F(cost2), [F(x) for x in theta2], [int(x) for x in nxt2])
+        r2 = call_impl(c['T'], args)
         if r2 != r:
             return ('unstable', 'first call %r, second call with the same argument objects %r' % (jsonable(r[1:3]), jsonable(r2[1:3])))
         return r
     except Exception as e:
         return ('err', exc_kind(e), str(e)[:200])
+
+
+def forms_oracle(c, r):
+    """the same instance handed over as four length-(T+1) lists of python floats (slot 0 = 0) must give the same four outputs"""
+    try:
+        rc = call_impl(c['T'], py_args(c, canonical=True))
+    except Exception as e:
+        rc = ('err', exc_kind(e), str(e)[:200])
+    if rc[0] == 'ok' and (rc[1][1:], rc[2], rc[3][1:], rc[4][1:]) == (r[1][1:], r[2], r[3][1:], r[4][1:]):
+        return []
+    form = c.get('form') or {}
+    return [('parameter-forms-differ', 'passed as %s: Q=%r cost=%r next=%r; the same values passed as length-(T+1) float lists: %r' % (
+        {k: (c[k][0] if c[k][0] == 'scalar' else 'list[%d]' % len(c[k][1])) + ':' + form.get(k, 'float') for k in 'hKdc'},
+        jsonable(r[1]), jsonable(r[2]), r[4], jsonable(rc[1:3]) if rc[0] == 'ok' else rc))]
 
 
 def norm(a, T):
@@ -132,6 +215,8 @@ def explore(chk, n, tmax, do_model=True):
         nontriv = False
         chk.count('T=%d' % T); chk.count('malformed=%s' % c['malformed'])
         for k in 'hKdc': chk.count('shape_%s=%s' % (k, c[k][0] if c[k][0] == 'scalar' else ('T1' if len(c[k][1]) == T + 1 else 'T')))
+        for k in 'hKdc': chk.count('form_%s=%s' % (k, c['form'][k]))
+        for k, v in c['regime'].items(): chk.count('regime_%s=%s' % (k, v))
         if c['malformed']:
             # documented: ValueError
             if r[0] != 'err' or r[1] != 'ValueError':
@@ -145,7 +230,7 @@ def explore(chk, n, tmax, do_model=True):
         if r[0] == 'err':
             chk.fail('wagner_whitin|raises-%s' % r[1], 'valid input raises %s: %s' % (r[1], r[2]), c)
             chk.case(c, False); continue
-        bad = oracle(c, r)
+        bad = oracle(c, r) + forms_oracle(c, r)
         for sig, what in bad:
             chk.fail('wagner_whitin|' + sig, what, c)
         norders = sum(1 for x in r[1][1:] if x != 0)
@@ -168,7 +253,7 @@ def run(chk):
     chk.trusted += ['model Alg/WW.v is hand-written; tied to /repo by exact comparison of all four outputs (order quantities, cost, theta, next pointers) on generated instances']
     chk.assume += ['floating-point rounding is not modelled: theorems are over exact rationals; generated inputs are integers or multiples of 1/4 so that every float operation of the implementation is exact']
     chk.proof()
-    n, tmax = (150, 8) if chk.tier == 'quick' else (3000, 12)
+    n, tmax = (300, 8) if chk.tier == 'quick' else (3000, 12)
     explore(chk, n, tmax)
     if (chk.broken or chk.mismatches) and not chk.fails:
         # directed search for a failing input: larger budget, oracle only
@@ -184,7 +269,7 @@ def replay(chk, rp):
     if r[0] in ('mutated', 'unstable'):
         chk.fail('wagner_whitin|%s' % ('mutates-its-arguments' if r[0] == 'mutated' else 'second-call-differs'), r[1], c)
     elif r[0] == 'ok':
-        for sig, what in oracle(c, r):
+        for sig, what in oracle(c, r) + forms_oracle(c, r):
             chk.fail('wagner_whitin|' + sig, what, c)
     elif not c.get('malformed'):
         chk.fail('wagner_whitin|raises-%s' % r[1], r[2], c)
